@@ -70,7 +70,7 @@ CLAIMED = {
    technique="TLA+ index-map laws on recorded fixed-point fields (TLC trace validation) + TLC model check of the mode bookkeeping", ref="5 C20"),
  "C04": dict(
    text="Conditions.tla states, in an exact integer universe (affine integer models, integer sample points, affine data functions), what the residual must receive by name row by row (coordinates, model outputs, parameter, data functions at the same rows, left/right values for periodic conditions) and the documented reduction (mean of squared residual summed over components / plain mean). TLC enumerates 624 single-condition scenarios over kinds, residual families, space / model / signature orders, static or not, n; real conditions are built with recording residuals and TLC validates the recorded arguments and the loss (as an exact rational) after every evaluation.",
-   note="Trusted: TLC; recording residual functions generated from the scenario; float64 affine models. Covered kinds: PINN, mean/Deep-Ritz, periodic (Conditions.tla) and PIDeepONet, DeepONet data, integro, Deep-Ritz, parameter conditions (CondExt.tla, integer DeepONets whose output table is observed by a direct call). Data-loader aggregation is covered in C16; HPM and variational conditions are not driven. Integro residuals with derivatives under the integral; x-only conditions using data functions with default arguments.",
+   note="Trusted: TLC; recording residual functions generated from the scenario; float64 affine models. Covered kinds: PINN, mean/Deep-Ritz, periodic (Conditions.tla) and PIDeepONet, DeepONet data, integro, Deep-Ritz, parameter and HPM conditions (CondExt.tla, integer DeepONets whose output table is observed by a direct call). Data-loader aggregation is covered in C16; HPM conditions (equation loss at a sampler: coordinates + learnable parameter + data functions, no model output; at data points: batch-wise aggregation incl. norm / root / full data set) are covered in CondExt.tla; variational conditions are not driven. Integro residuals with derivatives under the integral; x-only conditions using data functions with default arguments.",
    technique="TLA+ evaluation semantics in an exact integer universe + TLC trace validation of exhaustively enumerated scenarios", ref="5 C04"),
  "C14": dict(
    text="MC_Cond model-checks the dictionary handling (copy vs in-place) against isolation for all construct/evaluate interleavings of 3 conditions; TLC generates histories of constructing and evaluating up to three real conditions that share user dictionaries (static and non-static samplers, periodic left/right data) and the trace monitor checks after every step that each condition received its data functions on ITS OWN points, that the user dictionaries still hold the user's function objects, and that static conditions repeat their loss.",
